@@ -6,8 +6,14 @@
 (* property but differs from the reference in an unrequired detail prints  *)
 (* a DRIFT line.  Strings are sequences of code points, 64-bit integers    *)
 (* are 8 big-endian bytes.                                                 *)
-(*  parse    s, ok, u                 ParseUUID(s)                         *)
-(*  print    u, s, backok, back       u.String(), ParseUUID(u.String())    *)
+(*  parse    via, pre, s, ok, u       ParseUUID(s) / UnmarshalText /       *)
+(*                                    UnmarshalJSON / json.Unmarshal into a *)
+(*                                    destination that held pre; u = the    *)
+(*                                    destination afterwards.  The result   *)
+(*                                    of parsing is a function of s alone.  *)
+(*  print    u, s, backok, back, tback, jback   u.String(), ParseUUID back; *)
+(*                                    MarshalText/UnmarshalText and JSON    *)
+(*                                    round trips into used destinations    *)
 (*  v1       t, clock, node, u, str, ver, varietf, ts, tsec, tns, clk, nd  *)
 (*                                    TimeUUIDWith(t, clock, node) + getters*)
 (*  fromtime sec, ns, u, ver, varietf, ts, tsec, tns    UUIDFromTime(time) *)
@@ -41,7 +47,9 @@ Verdict(r) ==
          LET v == First(<< <<"print-not-parseable", ParseClass(r.s) # "reject">>,
                            <<"print-other-value", ParseClass(r.s) # "reject" => ParseValue(r.s) = r.u>>,
                            <<"print-parse-rejected", r.backok>>,
-                           <<"print-parse-roundtrip", r.back = r.u>> >>)
+                           <<"print-parse-roundtrip", r.back = r.u>>,
+                           <<"marshaltext-unmarshaltext-roundtrip", r.tbackok /\ r.tback = r.u>>,
+                           <<"marshaljson-unmarshaljson-roundtrip", r.jbackok /\ r.jback = r.u>> >>)
          IN IF v.ok /\ r.s # Canon(r.u) THEN [v EXCEPT !.drift = "String() is not the canonical lower-case 8-4-4-4-12 form"] ELSE v
     [] r.k = "v1" ->
          LET tw == WordBE(r.t)
